@@ -26,6 +26,7 @@ import (
 	"strconv"
 	"strings"
 	"sync"
+	"sync/atomic"
 	"time"
 
 	"github.com/XiaoMi/Gaea/util"
@@ -63,6 +64,7 @@ type sess struct {
 	a, d    int // time of the latest Add and its delay (seconds)
 	dropped bool
 	anyDrop bool
+	rmDrop  bool // a Remove of this session returned to its caller without having queued anything
 }
 
 type world struct {
@@ -89,6 +91,12 @@ type world struct {
 	feat      map[string]string
 	pipeCap   int
 	anyFiring bool
+
+	// a Remove issued while the pipeline is full: the real (blocking) Remove parks its caller
+	// until the next tick drains the pipeline; it runs on its own goroutine
+	blocked    int   // 0/1 Remove callers parked in the channel send
+	rmDone     int32 // set by the Remove goroutine when Remove returned
+	cachedPipe []util.VerifPipeItem
 }
 
 var cur *world // the world of the replay in progress (one at a time)
@@ -189,6 +197,10 @@ func (w *world) fail(kind string, s int, format string, a ...interface{}) {
 	if m.anyDrop {
 		f["pipeline_dropped"] = "yes"
 	}
+	f["remove_dropped"] = "no"
+	if m.rmDrop {
+		f["remove_dropped"] = "yes"
+	}
 	f["session"] = "real"
 	if s >= nReal {
 		f["session"] = "filler"
@@ -221,15 +233,68 @@ func (w *world) add(s, d int) {
 	}
 }
 
+// removeParked reports whether a goroutine is parked in TimeWheel.Remove's channel send.
+func removeParked() bool {
+	buf := make([]byte, 1<<16)
+	n := runtime.Stack(buf, true)
+	for _, g := range strings.Split(string(buf[:n]), "\n\n") {
+		if strings.Contains(g, "[chan send") && strings.Contains(g, "(*TimeWheel).Remove") {
+			return true
+		}
+	}
+	return false
+}
+
+// waitRemove waits until the outstanding Remove call has either returned (true) or is parked
+// in its channel send (false). Both are states, not time-outs.
+func (w *world) waitRemove() bool {
+	for i := 0; ; i++ {
+		if atomic.LoadInt32(&w.rmDone) == 1 {
+			return true
+		}
+		if removeParked() {
+			return false
+		}
+		runtime.Gosched()
+		if i > 10_000_000 {
+			ev.Fatalf("C37 harness: Remove neither returns nor parks")
+		}
+	}
+}
+
 func (w *world) remove(s int) bool {
-	if util.VerifPipeLen(w.tw) >= w.pipeCap {
-		return false // Remove blocks until the next tick when the pipeline is full
+	m := &w.ss[s]
+	before := util.VerifPipeLen(w.tw)
+	if before < w.pipeCap {
+		if err := w.tw.Remove(keyT{s}); err != nil {
+			w.fail("remove_error", s, "Remove returned %v", err)
+		}
+		if util.VerifPipeLen(w.tw) != before+1 {
+			m.rmDrop = true
+		}
+		m.state = stRemoved
+		w.lastOut = "rm"
+		return true
 	}
-	if err := w.tw.Remove(keyT{s}); err != nil {
-		w.fail("remove_error", s, "Remove returned %v", err)
+	// pipeline full: the caller of the real Remove is parked until the next tick
+	if w.blocked > 0 {
+		return false
 	}
-	w.ss[s].state = stRemoved
-	w.lastOut = "rm"
+	w.cachedPipe = util.VerifPipeItems(w.tw)
+	atomic.StoreInt32(&w.rmDone, 0)
+	go func() {
+		w.tw.Remove(keyT{s})
+		atomic.StoreInt32(&w.rmDone, 1)
+	}()
+	if w.waitRemove() {
+		// Remove returned (accepted, as far as its caller can tell) although nothing could be queued
+		m.rmDrop = true
+		w.lastOut = "rm full:returned"
+	} else {
+		w.blocked = 1
+		w.lastOut = "rm full:parked"
+	}
+	m.state = stRemoved
 	return true
 }
 
@@ -253,7 +318,10 @@ func (w *world) tick() {
 	w.lastTick = w.now
 	w.release <- struct{}{}
 	w.hookD = <-w.arrive
-	w.quiesce(w.base)
+	if w.blocked > 0 && w.waitRemove() {
+		w.blocked = 0 // the drain made room: the parked Remove queued its item and returned
+	}
+	w.quiesce(w.base + w.blocked)
 	if w.hookD != tickS*time.Second {
 		w.fail("tick_period", 0, "the loop sleeps %v per tick instead of the configured %ds", w.hookD, tickS)
 	}
@@ -342,7 +410,15 @@ func (w *world) collect(where string) {
 // Filler sessions (flood) are identical among themselves and rendered as grouped counts.
 func (w *world) key() string {
 	tasks := util.VerifWheelTasks(w.tw)
-	pipe := util.VerifPipeItems(w.tw)
+	var pipe []util.VerifPipeItem
+	if w.blocked > 0 {
+		// a sender is parked on the full channel: taking an item out would let its item in and
+		// reorder the queue. The content cannot have changed since the Remove was issued (every
+		// Add was dropped, the loop is parked), so the copy taken just before is used.
+		pipe = w.cachedPipe
+	} else {
+		pipe = util.VerifPipeItems(w.tw)
+	}
 	// fillers are collapsed to one pseudo session id (nReal) before anything is formatted
 	type tk struct {
 		s                 int
@@ -421,6 +497,7 @@ func (w *world) key() string {
 			return "f"
 		}
 		var sb strings.Builder
+		fmt.Fprintf(&sb, "parkedRemove=%d|", w.blocked)
 		fmt.Fprintf(&sb, "pos=%d idx=%d hook=%d|", w.now-w.lastTick, util.VerifIndexSize(w.tw), int(w.hookD/time.Second))
 		// model of real sessions in renamed order
 		ms := make([]string, nReal)
@@ -429,6 +506,9 @@ func (w *world) key() string {
 			x := fmt.Sprintf("%d", m.state)
 			if m.state == stReg {
 				x += fmt.Sprintf(":%+d:%v", m.a+m.d-w.now, m.anyDrop)
+			}
+			if m.rmDrop {
+				x += ":rmdrop"
 			}
 			ms[perm[s]] = x
 		}
@@ -508,7 +588,7 @@ func apply(w *world, e string) (ok bool) {
 		ev.Fatalf("unknown event %q", e)
 	}
 	// nothing may fire outside a tick
-	w.quiesce(w.base)
+	w.quiesce(w.base + w.blocked)
 	w.collect(e)
 	return true
 }
@@ -719,7 +799,14 @@ func enabledB(hist []string) []string {
 	if !anyFlood {
 		out = append(out, "flood")
 	}
-	if !flooded {
+	// a Remove on a full pipeline parks its caller until the next tick: at most one of them
+	rmSinceFlood := false
+	for i := len(hist) - 1; i >= 0 && hist[i] != "tick" && hist[i] != "rev" && hist[i] != "flood"; i-- {
+		if hist[i] == "rm 0" {
+			rmSinceFlood = true
+		}
+	}
+	if !flooded || !rmSinceFlood {
 		out = append(out, "rm 0")
 	}
 	return out
@@ -756,7 +843,7 @@ func main() {
 	}
 	d1, k1 := envInt("C37_D1", r.Pick(6, 10)), envInt("C37_K1", r.Pick(3, 4))
 	d2, k2 := envInt("C37_D2", r.Pick(5, 6)), envInt("C37_K2", r.Pick(2, 3))
-	dB := envInt("C37_DB", r.Pick(4, 7))
+	dB := envInt("C37_DB", r.Pick(5, 7))
 	// two-session phase: the quick tier uses 1 tick, N, N+1 ticks and 1.4 ticks for both
 	// sessions (same list for both: the symmetry reduction needs it), thorough the full list
 	delays2 := delays
@@ -816,6 +903,7 @@ func main() {
 	r.Sample(caseT{"A2-two-sessions", []string{"add 0 15", "tick", "late", "add 1 7", "tick", "tick", "tick"}})
 	r.Sample(caseT{"A1-one-session", []string{"add 0 30", "tick", "add 0 5", "rm 1", "tick", "tick"}})
 	r.Sample(caseT{"B-saturation", []string{"add 0 10", "tick", "flood", "add 0 10", "tick", "tick"}})
+	r.Sample(caseT{"B-saturation", []string{"add 0 5", "tick", "flood", "rm 0", "tick"}})
 	r.Assume("ticks are exactly one tick period apart on the logical clock (the real loop's Sleep(tick)+processing drift is not modelled)")
 	r.Assume("callbacks are observed at the tick that started them (the harness waits for goroutine quiescence after every step)")
 	r.Finish()
